@@ -279,13 +279,16 @@ pub fn ir() -> &'static Ir {
             service: "MacroOnly".into(),
             name: "segments".into(),
             method: "GET".into(),
-            template: "/mo/{head}/raw/{tail}".into(),
-            segs: vec![Seg::Lit("mo".into()), Seg::Param("head".into()), Seg::Lit("raw".into()), Seg::Param("tail".into())],
+            template: "/mo/{head}/n/{num}/raw/{tail}".into(),
+            segs: vec![Seg::Lit("mo".into()), Seg::Param("headSegment".into()), Seg::Lit("n".into()), Seg::Param("theNumber".into()), Seg::Lit("raw".into()), Seg::Param("tail".into())],
             auth: Auth::None,
             args: vec![
-                ArgMeta { name: "head".into(), ty: Ty::Prim(Prim::String), kind: PKind::Path, param_id: "head".into(), safety: None, legacy_safe: false },
+                // (the path template calls it `head`; the declared name, via `log_as`, is `headSegment`)
+                ArgMeta { name: "headSegment".into(), ty: Ty::Prim(Prim::String), kind: PKind::Path, param_id: "head".into(), safety: None, legacy_safe: false },
+                ArgMeta { name: "theNumber".into(), ty: Ty::Prim(Prim::Integer), kind: PKind::Path, param_id: "num".into(), safety: None, legacy_safe: false },
                 ArgMeta { name: "tail".into(), ty: Ty::List(Box::new(Ty::Prim(Prim::String))), kind: PKind::Path, param_id: "tail".into(), safety: None, legacy_safe: false },
                 ArgMeta { name: "q".into(), ty: Ty::List(Box::new(Ty::Prim(Prim::Integer))), kind: PKind::Query, param_id: "k&ey".into(), safety: None, legacy_safe: false },
+                ArgMeta { name: "opt".into(), ty: Ty::Opt(Box::new(Ty::Prim(Prim::Integer))), kind: PKind::Query, param_id: "o".into(), safety: None, legacy_safe: false },
             ],
             returns: Some(Ty::Prim(Prim::String)),
             limit: None,
